@@ -470,8 +470,10 @@ def run_property(prop_id, tier, seed, workers=None):
         "wall_s": round(wall, 3),
         "violations": len(violations),
     }
-    os.makedirs(os.path.join(VERIF_DIR, "evidence"), exist_ok=True)
-    with open(os.path.join(VERIF_DIR, "evidence", "%s.json" % prop_id), "w") as f:
+    # sensitivity runs against a scratch tree (VERIF_REPO) never touch the committed evidence
+    evdir = "evidence" if repo_dir() == "/repo" else os.path.join(".work", "evidence-scratch")
+    os.makedirs(os.path.join(VERIF_DIR, evdir), exist_ok=True)
+    with open(os.path.join(VERIF_DIR, evdir, "%s.json" % prop_id), "w") as f:
         json.dump(ev, f, indent=1, sort_keys=True)
 
     for k in known_open:
